@@ -415,7 +415,15 @@ impl LineBuffer {
         assert_eq!(self.pos, 0);
         loop {
             self.ensure_capacity()?;
-            let readlen = rdr.read(self.free_buffer().as_bytes_mut())?;
+            let readlen = match rdr.read(self.free_buffer().as_bytes_mut()) {
+                Ok(readlen) => readlen,
+                // As with `Read::read_exact` and friends, an interrupted
+                // read is not a failure: nothing was read, so try again.
+                Err(ref err) if err.kind() == io::ErrorKind::Interrupted => {
+                    continue;
+                }
+                Err(err) => return Err(err),
+            };
             if readlen == 0 {
                 // We're only done reading for good once the caller has
                 // consumed everything.
